@@ -547,6 +547,14 @@ func scenarios(thorough bool) []scen {
 			{op: "append", path: a, data: `2"}` + "\n", pause: 100 * time.Millisecond}, {op: "notify", kind: "write", path: a},
 			{op: "append", path: b, data: line("", "b3"), pause: 100 * time.Millisecond}, {op: "notify", kind: "write", path: b}}},
 		{name: "two-files", initial: map[string]string{a: line("", "a1") + line("", "a2"), b: line("", "b1")}, bound: 1},
+		// the file ends in an unfinished line when it is truncated: the stale tail must not be glued to what is written
+		// afterwards (fixed finding C03-stale-tail-after-truncation, repo 474a2f8; generated history genP-T_A)
+		{name: "partial-then-truncate-then-write", initial: map[string]string{a: line("", "a1") + `{"l":"a`}, watch: true, truncated: true, sync: true, bound: 1, steps: []step{
+			{op: "truncate", path: a, pause: 100 * time.Millisecond}, {op: "notify", kind: "write", path: a},
+			{op: "append", path: a, data: line("", "t1"), pause: 700 * time.Millisecond}, {op: "notify", kind: "write", path: a}}},
+		{name: "partial-then-truncate-then-write-nowatch", initial: map[string]string{a: line("", "a1") + `{"l":"a`}, truncated: true, bound: 1, steps: []step{
+			{op: "truncate", path: a, pause: 100 * time.Millisecond},
+			{op: "append", path: a, data: line("", "t1"), pause: 700 * time.Millisecond}}},
 		{name: "truncate-then-write", initial: map[string]string{a: line("", "a1") + line("", "a2")}, watch: true, truncated: true, sync: true, bound: 1, steps: []step{
 			{op: "truncate", path: a, pause: 700 * time.Millisecond}, {op: "append", path: a, data: line("", "t1")}, {op: "notify", kind: "write", path: a}}},
 		// truncation while an event read before it is still unacknowledged (the batch waits for its flush timeout):
